@@ -1,6 +1,68 @@
-"""Replay search: after a rejected obligation, look for a concrete failing input on the real crate.
-Never part of the deciding step."""
+"""Replay search: after an obligation has been rejected, look for a concrete failing input on the REAL crate.
+Never part of the deciding step: a violation is reported whether or not a replay is found.
+
+A search is registered per unit (SEARCHES).  It copies the working tree under test (VERIF_REPO, default /repo) to a
+scratch directory outside /repo and /verif, appends a `#[cfg(test)]` search module from /verif/replay_tests to the file
+it belongs to, and runs it with `cargo test --offline`.  The module drives the real code through every small input of a
+stated shape and prints `REPLAY-FAIL <input> :: <deviation>` for the first input on which the real code deviates from
+the abstract view the contracts describe.  The scratch copy is removed afterwards; the cargo target directory is kept
+under /verif/.cache (ignored by git) so that later searches are incremental.
+"""
+import os
+import re
+import shutil
+import subprocess
+import tempfile
+
+VERIF = os.path.dirname(os.path.dirname(os.path.abspath(__file__)))
+REPO = os.environ.get("VERIF_REPO", "/repo")
+
+SEARCHES = {
+    # unit -> (file the module is appended to, module file, package, test filter, what is enumerated)
+    "tx_index": ("teos/src/tx_index.rs", "replay_tests/search_tx_index.rs", "teos", "verif_replay_search",
+                 "all connect/disconnect sequences up to length 7 over windows of 2 and 3 blocks, blocks with 0..2 transactions"),
+}
+_done = {}
 
 
 def search(prop, unit, ob, rec):
+    name = unit["name"]
+    if name not in SEARCHES or os.environ.get("VERIF_NO_REPLAY"):
+        return False
+    if name in _done:          # one search per unit and run: the same input explains every failed clause of the unit
+        res = _done[name]
+    else:
+        res = _done[name] = _run(*SEARCHES[name])
+    rec["replay_search"] = {"enumerated": SEARCHES[name][4], "module": SEARCHES[name][1], "outcome": res["outcome"], "log_tail": res["tail"]}
+    if res["found"]:
+        rec["concrete_input"] = res["found"]
+        rec["replayed_on_real_code"] = True
+        rec["replay_cmd"] = res["cmd"]
+        return True
     return False
+
+
+def _run(target_file, module, package, flt, what):
+    scratch = tempfile.mkdtemp(prefix="verif_replay_")
+    try:
+        subprocess.run(["rsync", "-a", "--exclude", "target", "--exclude", ".git", REPO.rstrip("/") + "/", scratch + "/"], check=True)
+        p = os.path.join(scratch, target_file)
+        with open(p, "a", encoding="utf-8") as f:
+            f.write("\n" + open(os.path.join(VERIF, module), encoding="utf-8").read())
+        tdir = os.path.join(VERIF, ".cache", "replay_target")
+        os.makedirs(tdir, exist_ok=True)
+        cmd = "cargo test --offline -p %s --lib %s -- --nocapture" % (package, flt)
+        env = dict(os.environ, CARGO_TARGET_DIR=tdir, CARGO_NET_OFFLINE="true", RUST_BACKTRACE="0")
+        try:
+            r = subprocess.run(cmd, shell=True, cwd=scratch, env=env, capture_output=True, text=True, timeout=1800)
+        except subprocess.TimeoutExpired:
+            return {"found": None, "outcome": "timeout", "tail": "", "cmd": cmd}
+        out = r.stdout + r.stderr
+        m = re.search(r"REPLAY-FAIL (.*)", out)
+        if m:
+            return {"found": m.group(1).strip()[:600], "outcome": "failing input found on the real code", "tail": out[-1500:], "cmd": cmd + "   (module %s appended to %s)" % (module, target_file)}
+        if "REPLAY-NONE" in out:
+            return {"found": None, "outcome": "no failing input in the enumerated space", "tail": out[-600:], "cmd": cmd}
+        return {"found": None, "outcome": "search did not run to completion (build error?)", "tail": out[-1500:], "cmd": cmd}
+    finally:
+        shutil.rmtree(scratch, ignore_errors=True)
